@@ -61,4 +61,8 @@ def khatrirao(*matrices: np.ndarray, reverse: bool = False) -> np.ndarray:
         P = np.reshape(i, newshape=(-1, 1, ncolFirst)) * np.reshape(
             P, newshape=(1, -1, ncolFirst), order="F"
         )
-    return np.reshape(P, newshape=(-1, ncolFirst), order="F")
+    result = np.reshape(P, newshape=(-1, ncolFirst), order="F")
+    if len(matrices) == 1:
+        # A single matrix is its own Khatri-Rao product: do not hand back the input itself
+        return result.copy()
+    return result
